@@ -479,6 +479,13 @@ class RestAPI(object):
                     )
                     return aws_error("StateMachineDoesNotExist"), 400
 
+                """
+                Collect the changes and only apply them once every argument has
+                been validated, so that a request that is answered with an error
+                leaves the stored State Machine exactly as it was.
+                """
+                updates = {}
+
                 role_arn = params.get("roleArn")
                 if role_arn:
                     if not valid_role_arn(role_arn):
@@ -488,7 +495,7 @@ class RestAPI(object):
                             )
                         )
                         return aws_error("InvalidArn"), 400
-                    state_machine["roleArn"] = role_arn
+                    updates["roleArn"] = role_arn
 
                 definition = params.get("definition", "")
                 if definition:
@@ -515,7 +522,7 @@ class RestAPI(object):
                         return aws_error("InvalidDefinition"), 400
 
                     # TODO ASL Validator??
-                    state_machine["definition"] = definition
+                    updates["definition"] = definition
 
                 if not role_arn and not definition:
                     self.logger.warning(
@@ -524,8 +531,9 @@ class RestAPI(object):
                     return aws_error("MissingRequiredParameter"), 400
 
                 update_date = time.time()
-                state_machine["updateDate"] = update_date
+                updates["updateDate"] = update_date
 
+                state_machine.update(updates)
                 self.asl_store[state_machine_arn] = state_machine
 
                 resp = {"updateDate": update_date}
